@@ -49,15 +49,22 @@ fn writer(tier: &str) -> Vec<String> {
         (8192, "1,4095,4096,8190,8191,8192,8193"),
         (16384, "1,4000,8191,8192,8193,12000,16382,16383,16384,16385"),
         (65536, "1,8192,30000,32767,65534,65535,65536"),
+        (100000, "1,1000,34463,34464,65506,65507,65508,65535,65536,99998,99999,100000"),
+        (131072, "1,1000,65505,65506,65507,65535,65536,65537,131070,131071,131072"),
     ] {
         v.push(format!("wtree:cap={}:end=n:depth={}:Fop=0:Fh=0:lens={}", cap, if thorough { 5 } else { 4 }, lens));
         v.push(format!("wtree:cap={}:end=n:depth=3:Fop=1:Fh=2:lens={}", cap, lens));
     }
     // long fixed histories (not enumerated): accumulated state, counters, growth thresholds
-    for (cap, end) in [(512usize, "n"), (1432, "n"), (16, "n"), (8, "rn"), (64, "e"), (9000, "n")] {
+    for (cap, end) in [(512usize, "n"), (1432, "n"), (16, "n"), (8, "rn"), (64, "e"), (9000, "n"), (70000, "n"), (140000, "n")] {
         v.push(format!("wlong:cap={}:end={}:n={}", cap, end, if thorough { 400_000 } else { 120_000 }));
         v.push(format!("wlong:cap={}:end={}:n={}:fail=7", cap, end, if thorough { 200_000 } else { 70_000 }));
     }
+    // very large capacities on the real sinks (lengths around the UDP payload limit and 64 KiB)
+    v.push("sock-buf:sink=udp:cap=100000:depth=3:lens=1,30000,35507,65506,65507,65508,99999".to_string());
+    v.push("sock-buf:sink=unix:cap=100000:depth=3:lens=1,30000,35507,65506,65507,65508,99999".to_string());
+    v.push("sock-buf:sink=spy:cap=131072:depth=3:lens=1,1000,65505,65506,65507,65535,65536,65537,131071,131072".to_string());
+    v.push("sock-buf:sink=udp:cap=8:depth=2:lens=1,7,65507,65508,70000".to_string());
     // accessors must not write: stats() between emits on the socket sinks
     for sink in ["udp", "unix"] {
         v.push(format!("sock-buf:sink={}:cap=8:stats=1:depth={}", sink, if thorough { 4 } else { 3 }));
@@ -596,6 +603,9 @@ fn c13(tier: &str) -> Vec<String> {
             v.push(format!("sock-buf:sink={}:cap={}:depth={}", sink, cap, if th { 4 } else { 3 }));
         }
     }
+    v.push("sock-buf:sink=udp:cap=100000:depth=3:lens=1,30000,35507,65506,65507,65508,99999".to_string());
+    v.push("sock-buf:sink=unix:cap=100000:depth=3:lens=1,30000,35507,65506,65507,65508,99999".to_string());
+    v.push("sock-buf:sink=udp:cap=8:depth=2:lens=1,7,65507,65508,70000".to_string());
     // capacities above the usual buffer sizes (jumbo frames, Unix sockets)
     v.push("sock-buf:sink=udp:cap=16384:depth=3".to_string());
     v.push("sock-buf:sink=unix:cap=8932:depth=3".to_string());
@@ -620,6 +630,15 @@ fn c14(tier: &str) -> Vec<String> {
     for prog in ["ooo", "oeo", "oooo", "eoo"] {
         v.push(format!("stats:mode=queue:prog={}", prog));
     }
+    v.push("sock-volume".to_string());
+    // more threads than any per-thread striping would give a private cell to (delay-bounded)
+    let many = vec!["o"; 19].join(".");
+    let many_e = vec!["oe"; 18].join(".");
+    for mode in ["raw", "unix", "udp"] {
+        v.push(format!("stats:mode={}:prog={}:D=1", mode, many));
+    }
+    v.push(format!("stats:mode=raw:prog={}:D=1", many_e));
+    v.push("sock-buf:sink=udp:cap=100000:depth=3:lens=1,30000,35507,65506,65507,65508,99999".to_string());
     let progs: Vec<&str> = if th { vec!["oo.oo", "oe.eo", "o.o.o", "oe.o.e", "ooo.oo", "oe.oe.oe", "oo.oo.o"] } else { vec!["oo.oo", "oe.eo", "o.o.o", "oe.o.e"] };
     for prog in progs {
         for mode in ["raw", "unix", "udp"] {
